@@ -28,19 +28,32 @@ PROP = {'gen': [],
  'pre_coq': [_dfa.pre_coq, _c15prod.pre_coq],
  'harness_mods': ['c15'],
  'coq_props': ['theories/Props/C03.vo'],
+ 'coq_props_more': [{'target': 'theories/Props/C03Prod.vo', 'file': 'theories/Props/C03Prod.v', 'module': 'Props.C03Prod'}],
  'coq_corr': ['theories/Corr/C03Corr.vo'],
  'props_file': 'theories/Props/C03.v',
  'props_module': 'Props.C03',
  'corr_check': 'SNT.Corr.C03Corr.c03_check (model Automata/Tokenizer.v vs MatcherDecoder through verif::Tokenizer over generated '
                'pattern sets, and vs TTYEventDecoder / TTYCommandDecoder / Utf8Decoder over the regenerated production automata)',
- 'level_text': 'Coq theorems, generic in the automaton (any DFA, any payload decoder): feeding a stream to the model of MatcherDecoder '
-               'in any partition into reads (empty reads allowed) yields the same events and the same final state as one read; the '
-               'events are the leftmost-longest tokenisation (spec munch) and spans plus pending bytes reassemble the stream; the '
-               'loops terminate within a stated fuel bound. Instantiated at the production automata regenerated from the source each '
-               'run, and composed with C15_production_* (each dumped DFA is the subset construction of the NFA built from the registered '
-               'patterns): C03_prod_language states the tokenisation on the production NFAs (accepted / live / tags of the NFA). '
-               'Model tied to the code by a differential run at two levels; for generated pattern sets every emitted token is also checked '
-               'against the languages of the patterns (verified regex matcher of C15).',
+ 'level_text': 'Coq theorems, generic in the automaton (any DFA, any payload decoder; counted obligations: C03_chunking, C03_munch, C03_fuel, '
+               'C03_prod_terminal, C03_public_wrappers, C03_poll_loop, and in Props/C03Prod.v C03_prod_language_event / _command): feeding '
+               'a stream to the model of MatcherDecoder in any partition into reads (empty reads allowed) yields the same events and the '
+               'same final state as one read; the events are the tokenisation `munch` and spans plus pending bytes reassemble the stream; '
+               'the loops terminate within a stated fuel bound. What `munch` means is stated by lemmas about the specification alone '
+               '(C03_no_loss, C03_munch_unfold, C03_first_stop, C03_longest_acc, C03_longest, C03_raw_span, C03_accepted_span: not '
+               'counted). Spec decisions / readings of the property: (1) "recognised" = accepted by the automaton; the longest accepted '
+               'prefix is emitted, as ONE raw event of the same span when its payload decoder rejects it (a shorter complete sequence is '
+               'not reconsidered); (2) longest over the WHOLE remaining stream holds when is_terminal states have no successor '
+               '(hypothesis of C03_longest; checked on the regenerated tables: C03_prod_terminal); (3) when nothing recognised starts at '
+               'a position, the raw event is the longest live prefix there (or one byte) and the bytes inside it are not re-tokenised; '
+               '(4) C03_poll_loop models the read loop of UnixTerminal::poll with a STATELESS image handler that does not fail; '
+               'Lemma C03_poll_loop_handler_error states the limit: when `handle(..)?` fails, poll returns that error and the rest of the '
+               'current read buffer is dropped (events are lost there; unreachable with the crate\'s handlers, whose writes go to the '
+               'in-memory queue; a `recv == 0` read ends poll with Error::Quit before decoding and is not modelled); (5) the Utf8Decoder '
+               'specification of the correspondence (u8_spec) follows the code in consuming the byte that kills a sequence together with '
+               'it (`C3 41` yields one error and no `A`): the property asks chunking independence of Utf8Decoder, not resynchronisation. '
+               'C03_prod_language_event / _command compose with C15_production_*: tokens characterised on the production NFA DUMP '
+               '(accepted / live / tags), not on pattern ASTs. Model tied to the code by a differential run at two levels; for generated '
+               'pattern sets every emitted token is also checked against the languages of the patterns (verified regex matcher of C15).',
  'level_note': 'Trusted: Coq kernel + vm_compute; hand-written model of MatcherDecoder::{decode, decode_byte, take_candidate} and '
                'Decoder::decode_into validated by the correspondence run; DFA dump hook + translate/dfa.py; readers expose all their '
                'bytes in one fill_buf (Cursor / slice, as at every call site). No axioms.',
@@ -55,9 +68,12 @@ PROP = {'gen': [],
                   'hand-written model Automata/Tokenizer.v of MatcherDecoder (decode, decode_byte, take_candidate) and decode_into, tied '
                   'to the code by the correspondence run',
                   'verif-hooks dump of the compiled automata (verif::dump_dfa, Tokenizer::dump) and translate/dfa.py (Gen/ProdDFA.v)',
-                  'for C03_prod_language: verif::dump_nfa, harness tool c15prod (DOT parser), translate/c15prod.py (Gen/ProdNFA.v) and the '
+                  'for C03_prod_language_event / _command (Props/C03Prod.v): verif::dump_nfa, harness tool c15prod (DOT parser), translate/c15prod.py (Gen/ProdNFA.v) and the '
                   'certificate checker of C15 (Automata/ProdCheck.v, verified)',
                   HARNESS],
  'assumptions': ['the BufRead handed to decode exposes all bytes of the read in one fill_buf (Cursor, &[u8]) as at every call site in '
                  'the crate; a reader exposing less is a finer partition into reads',
-                 'payload decoders are deterministic functions of the matched bytes (they are pure Rust functions of a byte slice)']}
+                 'payload decoders are deterministic functions of the matched bytes (they are pure Rust functions of a byte slice)',
+                 'C03_longest: is_terminal states have no outgoing transition (proved for the production tables, C03_prod_terminal)',
+                 'C03_poll_loop: the image handler is a stateless function of the event and returns Ok on every event of the stream',
+                 'C03_prod_language_*: input bytes are below 256; the NFA is the one dumped right before compile()']}
